@@ -389,6 +389,7 @@ func verifC06ContinualGathering() {
 		w.net.addAddress("eth1", "10.0.1.1")
 		verifTimerTicks(2)
 		verifLetOthersRun()
+		verifAdvanceClock(200 * time.Millisecond) // (native replay: several real ticker periods, also on a loaded machine)
 		locals, err = a.GetLocalCandidates()
 		found := false
 		for _, c := range locals {
